@@ -48,6 +48,8 @@ type Tmpl struct {
 	Depth  int      // nodes at depth == Depth are scalars or empty containers
 	MaxLen int      // maximum array length
 	Keys   []string // object key pool (concrete, sorted)
+	// KeysFor, if set, gives individual nodes (by name) their own key pool.
+	KeysFor func(nodeName string) ([]string, bool)
 	Exps   []int    // exponent set for float64 numbers
 	// NumReps lists the admissible numeric representations (nil = float64 only).
 	NumReps []int
@@ -142,7 +144,7 @@ func (m *Machine) newNode(name string, tm *Tmpl, depth int) *Node {
 	}
 	m.AddBase(c.InRange(n.Len, big.NewInt(0), big.NewInt(int64(maxLen))))
 	m.DeclareRange(n.Len, big.NewInt(0), big.NewInt(int64(maxLen)))
-	for _, k := range tm.Keys {
+	for _, k := range n.Keys() {
 		p := v("has:"+k, smt.SBool)
 		if depth >= tm.Depth {
 			m.AddBase(c.Not(p))
@@ -193,7 +195,7 @@ func (n *Node) Val(k int) *Node {
 		n.vals = append(n.vals, nil)
 	}
 	if n.vals[k] == nil {
-		n.vals[k] = n.m.newNode(fmt.Sprintf("%s{%s}", n.Name, n.Tm.Keys[k]), n.Tm, n.Depth+1)
+		n.vals[k] = n.m.newNode(fmt.Sprintf("%s{%s}", n.Name, n.Keys()[k]), n.Tm, n.Depth+1)
 		n.vals[k].Parent = n
 		if k > 0 {
 			n.Val(0)
@@ -203,9 +205,19 @@ func (n *Node) Val(k int) *Node {
 	return n.vals[k]
 }
 
+// Keys returns the object-key pool of this node (a per-node pool if the template defines one).
+func (n *Node) Keys() []string {
+	if n.Tm.KeysFor != nil {
+		if ks, ok := n.Tm.KeysFor(n.Name); ok {
+			return ks
+		}
+	}
+	return n.Tm.Keys
+}
+
 // KeyIndex returns the pool index of key or -1.
 func (n *Node) KeyIndex(key string) int {
-	for i, k := range n.Tm.Keys {
+	for i, k := range n.Keys() {
 		if k == key {
 			return i
 		}
